@@ -446,11 +446,20 @@ carquet_status_t carquet_batch_reader_next(
             /* Allocate null bitmap */
             size_t bitmap_size = ((size_t)rows_to_read + 7) / 8;
             col_data->null_bitmap = calloc(1, bitmap_size);
+            if (!col_data->null_bitmap) {
+                read_error = true;
+                continue;
+            }
 
             /* Read values */
             int16_t* def_levels = NULL;
             if (max_def > 0) {
                 def_levels = malloc(sizeof(int16_t) * (size_t)rows_to_read);
+                if (!def_levels) {
+                    /* without the levels the nulls of this column would be lost */
+                    read_error = true;
+                    continue;
+                }
             }
 
             int64_t values_read = carquet_column_read_batch(
